@@ -130,6 +130,29 @@ class Pass:
             return binding.get(name, [])
 
         out = []
+        # placement of a check inside the function it is written in: before the first call into
+        # NumPy (`…._implementation(…)` / `np.<f>(…)` with the stripped operands), and as a statement
+        # of the function body itself (not under an `if`/`for`/`try`)
+        kernel_calls = [c for c in ast.walk(fn) if isinstance(c, ast.Call)
+                        and (ast.unparse(c.func).endswith("._implementation")
+                             or (ast.unparse(c.func).startswith("np.") and ast.unparse(c.func)[3:] in ("interp", "isin")))]
+        top_calls = set()
+        for st in fn.body:
+            if isinstance(st, (ast.Expr, ast.Assign, ast.Return, ast.AugAssign, ast.AnnAssign)):
+                for c in ast.walk(st):
+                    if isinstance(c, ast.Call):
+                        top_calls.add(id(c))
+
+        def placed(call, names=None):
+            # "before": ahead of the first call into NumPy that is handed one of the checked operands
+            # (an early exit that does not touch them, as in `where(condition)`, does not count)
+            lines = []
+            for k in kernel_calls:
+                used = {x.id for a in list(k.args) + [kw.value for kw in k.keywords] for x in ast.walk(a) if isinstance(x, ast.Name)}
+                if names is None or used & set(names):
+                    lines.append(k.lineno)
+            return (not lines or call.lineno < min(lines), id(call) in top_calls)
+
         for n in ast.walk(fn):
             if not isinstance(n, ast.Call) or not isinstance(n.func, ast.Name):
                 continue
@@ -144,7 +167,7 @@ class Pass:
                         for o in (outward(r) if (r in own or binding is None) else [r]):
                             if o not in res:
                                 res.append(o)
-                out.append(("validate_side", res))
+                out.append(("validate_side", res) + placed(n, ns))
             elif callee in CHECKS:
                 ns = []
                 for a in n.args:
@@ -157,7 +180,7 @@ class Pass:
                         for o in outward(r):
                             if o not in res:
                                 res.append(o)
-                out.append((CHECKS[callee], res))
+                out.append((CHECKS[callee], res) + placed(n, ns))
             elif callee in self.funcs and depth < 3 and callee != fn.name:
                 for cand in self.funcs[callee]:
                     cpos, ckwo, _ = self.params(cand)
@@ -168,7 +191,11 @@ class Pass:
                     for k in n.keywords:
                         if k.arg:
                             b[k.arg] = [o for m in names_in(k.value) for r in resolve(m) for o in outward(r)]
+                    here = placed(n)
                     for c in self.checks_of(cand, b, depth + 1):
+                        # a check inside a helper counts as placed where both the helper call and the
+                        # check inside the helper are
+                        c = (c[0], c[1], c[2] and here[0], c[3] and here[1])
                         if c not in out:
                             out.append(c)
         return out
@@ -220,8 +247,8 @@ def generate(X):
                         npos = []
                     ren = {p: npos[i] for i, p in enumerate(pos) if i < len(npos)}
                     checks = []
-                    for kind, ns in P.checks_of(n):
-                        checks.append([kind, [ren.get(m, m) for m in ns]])
+                    for kind, ns, before, top in P.checks_of(n):
+                        checks.append([kind, [ren.get(m, m) for m in ns], bool(before), bool(top)])
                     table[key] = checks
                     sigs[key] = {"handler": n.name, "params": pos, "kwonly": kwo, "numpy_params": npos}
 
@@ -234,14 +261,16 @@ def generate(X):
     L = X.lstr
     rows = []
     for k in sorted(table):
-        cs = ", ".join(f"({L(kind)}, [" + ", ".join(L(m) for m in ns) + "])" for kind, ns in table[k])
+        cs = ", ".join(f"({L(kind)}, [" + ", ".join(L(m) for m in ns) + f"], {'true' if b else 'false'}, {'true' if t else 'false'})"
+                       for kind, ns, b, t in table[k])
         rows.append(f"  ({L(k)}, [{cs}])")
     text = (
         X.header()
         + "namespace Unyt.Generated\n\n"
         + "/-- per `@implements` handler of unyt/_array_functions.py: the unit-consistency checks it performs\n"
-        + "    and the operands each check covers (ast pass; helper calls followed) -/\n"
-        + "def handlerChecks : List (String × List (String × List String)) := [\n"
+        + "    as (kind, operands covered, placed before the first call into NumPy, an unconditional statement of\n"
+        + "    the body) (ast pass; helper calls followed) -/\n"
+        + "def handlerChecks : List (String × List (String × List String × Bool × Bool)) := [\n"
         + ",\n".join(rows)
         + "\n]\n\n"
         + "def handledFunctions : List String := [" + ", ".join(L(h) for h in handled) + "]\n\n"
